@@ -914,3 +914,59 @@ func fpIdent(name string) string {
 func protoregistryFind(name protoreflect.FullName) (protoreflect.MessageType, error) {
 	return protoregistry.GlobalTypes.FindMessageByName(name)
 }
+
+// namesakes: message types of the R4 packages that share a short name with another type
+// (Patient.GenderCode / Person.GenderCode, Patient.Contact / Organization.Contact …).
+var (
+	namesakeOnce sync.Once
+	namesakeMap  map[protoreflect.Name][]protoreflect.MessageDescriptor
+)
+
+func namesakeOf(md protoreflect.MessageDescriptor, pick int) protoreflect.MessageDescriptor {
+	namesakeOnce.Do(func() {
+		namesakeMap = map[protoreflect.Name][]protoreflect.MessageDescriptor{}
+		seen := map[protoreflect.FullName]bool{}
+		var walk func(m protoreflect.MessageDescriptor)
+		walk = func(m protoreflect.MessageDescriptor) {
+			if seen[m.FullName()] || !strings.HasPrefix(string(m.FullName()), "google.fhir.r4.core.") {
+				return
+			}
+			seen[m.FullName()] = true
+			namesakeMap[m.Name()] = append(namesakeMap[m.Name()], m)
+			fs := m.Fields()
+			for i := 0; i < fs.Len(); i++ {
+				if fm := fs.Get(i).Message(); fm != nil {
+					walk(fm)
+				}
+			}
+		}
+		for _, r := range allResTypes {
+			walk(r.Field.Message())
+		}
+		for k := range namesakeMap {
+			sort.Slice(namesakeMap[k], func(i, j int) bool { return namesakeMap[k][i].FullName() < namesakeMap[k][j].FullName() })
+		}
+	})
+	var others []protoreflect.MessageDescriptor
+	for _, m := range namesakeMap[md.Name()] {
+		if m.FullName() != md.FullName() {
+			others = append(others, m)
+		}
+	}
+	if len(others) == 0 {
+		return nil
+	}
+	if pick < 0 {
+		pick = -pick
+	}
+	return others[pick%len(others)]
+}
+
+// dynamicNew creates a new generated-code message for a descriptor of the R4 packages.
+func dynamicNew(md protoreflect.MessageDescriptor) protoreflect.Message {
+	mt, err := protoregistryFind(md.FullName())
+	if err != nil {
+		return nil
+	}
+	return mt.New()
+}
